@@ -25,7 +25,10 @@ type Thread struct {
 	finished  bool
 	panicMsg  string
 	abandoned bool
+	sleeping  bool
 }
+
+var sleepTok = new(int)
 
 type probeRec struct {
 	target  *Thread
